@@ -78,3 +78,42 @@ Proof.
   destruct (String.eqb f "id"); [discriminate|].
   rewrite Hown, Hh, Hc, Hw. reflexivity.
 Qed.
+
+(* ------------------------------------------------------------------ the lookup finds THE row *)
+
+Lemma find_cell_unique l : forall c,
+  NoDup (cell_ids (c_table c) l) -> In c l -> find_cell (c_table c) (c_id c) l = Some c.
+Proof.
+  induction l as [|c0 l IH]; intros c Hnd Hin; [destruct Hin|].
+  cbn [find_cell]. unfold cell_ids in Hnd. cbn [filter] in Hnd.
+  destruct (String.eqb (c_table c0) (c_table c)) eqn:Et.
+  - cbn [map] in Hnd. inversion Hnd as [|x xs Hnot Hnd']; subst.
+    destruct (c_id c0 =? c_id c) eqn:Ei; cbn [andb].
+    + destruct Hin as [->|Hin]; [reflexivity|]. exfalso. apply Hnot.
+      apply Z.eqb_eq in Ei. rewrite Ei. apply in_map. apply filter_In. split; [exact Hin|apply String.eqb_refl].
+    + destruct Hin as [->|Hin]; [rewrite Z.eqb_refl in Ei; discriminate|]. apply IH; assumption.
+  - cbn [andb]. destruct Hin as [->|Hin]; [rewrite String.eqb_refl in Et; discriminate|]. apply IH; assumption.
+Qed.
+
+(* In a fresh run every row of the heap is what a history lookup by its (table, id) finds: ids are
+   per table and never handed out twice (C01), so "the row with that table and id" is that row. *)
+Theorem fresh_run_lookup_finds_the_row r k s c :
+  run_fresh r k = Ok s -> In c (heap s) -> find_cell (c_table c) (c_id c) (heap s) = Some c.
+Proof.
+  unfold run_fresh. intros H Hin. apply find_cell_unique; [|exact Hin].
+  pose proof (cells_dense_run _ _ _ _ _ _ (init_start_ok _ _) H (c_table c)) as HP.
+  cbn [init_st heap length skipn] in HP.
+  eapply Permutation_NoDup; [apply Permutation_sym; exact HP|apply Zseq_NoDup].
+Qed.
+
+(* hence, in a fresh run, a field of a row read through a random_reference is the row's field *)
+Corollary fresh_run_field_through_history r k s c f w :
+  run_fresh r k = Ok s -> In c (heap s) ->
+  in_history (hist (rnd s)) (c_table c) (c_id c) = true ->
+  py_own_attr f || String.eqb f "sql_tablename" || String.eqb f "_data" = false ->
+  row_attr c f = Some w -> (forall n, w <> VSlot n) ->
+  hist_attr (hist (rnd s)) (heap s) (c_table c) (c_id c) f = Ok w.
+Proof.
+  intros H Hin Hh Hown Hw Hns. apply hist_attr_live; try assumption.
+  eapply fresh_run_lookup_finds_the_row; eassumption.
+Qed.
